@@ -941,14 +941,24 @@ def _set_end_pos_after_del(self: fst.FST, bound_ln: int, bound_col: int, bound_e
     _set_end_pos_w_maybe_trailing_semicolon(self, end_ln, end_col)
 
 
-def _elif_to_else_if(self: fst.FST, docstr: bool | Literal['strict'] = True) -> None:
+def _elif_to_else_if(
+    self: fst.FST, docstr: bool | Literal['strict'] = True, block_indent: str | None = None
+) -> None:
     """Convert an 'elif something:\\n  ...' to 'else:\\n  if something:\\n    ...'. Make sure to only call on an
     actual `elif`, meaning the lone `If` statement in the parent's `orelse` block which is an actual `elif` and not
-    an `if`."""
+    an `if`.
+
+    **Parameters:**
+    - `block_indent`: The total indentation to give the new `if`, which is the indentation of the new `else:` block so
+        must be the same as will be used for any other statements put to it. If `None` then default indentation is used.
+    """
 
     indent = self._get_block_indent()
 
-    self._indent_lns(skip=0, docstr=docstr)
+    if block_indent is None:
+        block_indent = indent + self.root.indent
+
+    self._indent_lns(block_indent[len(indent):], skip=0, docstr=docstr)
 
     if not self.next():  # last child?
         self.parent._set_end_pos((a := self.a).end_lineno, a.end_col_offset)  # we're an elif, there is definitely a parent
@@ -956,7 +966,7 @@ def _elif_to_else_if(self: fst.FST, docstr: bool | Literal['strict'] = True) -> 
     ln, col, _, _ = self.loc
 
     self._put_src(['if'], ln, col, ln, col + 4, False)
-    self._put_src([indent + 'else:', indent + self.root.indent], ln, 0, ln, col, False)
+    self._put_src([indent + 'else:', block_indent], ln, 0, ln, col, False)
 
 
 def _can_del_all(self: fst.FST, field: str, options: Mapping[str, Any]) -> bool:
@@ -1170,7 +1180,7 @@ def _put_slice_stmtlike_old(
         ffirst = flast = None
 
         if field == 'orelse' and len_body == 1 and (f := body[0].f).is_elif():
-            _elif_to_else_if(f, fst.FST.get_option('docstr', options))
+            _elif_to_else_if(f, fst.FST.get_option('docstr', options), block_indent)
 
         if fpre:
             block_loc = fstloc(*fpre.bloc[2:], *(fpost.bloc[:2] if fpost else fpre._next_bound_step()))
